@@ -39,6 +39,7 @@ from ..cfg import CFG, branch_facts
 from ..core import (AnalysisError, call_name, const_str, dotted, find_calls,
                     is_name, is_self_attr, kwarg, last_attr, names_in,
                     qualname, short, txt, walk)
+from ..normalize import expand_locals
 from ..lib_C14 import (BASIN_TYPES, CORE, DCORBASE, FB, FDICT, H5BASE,
                        WRITER, Unknown, Mini, base_names, cfg_ids,
                        class_assign, classes_in, edge_guarded,
@@ -601,37 +602,109 @@ def r142(ctx, repo, sites):
                         f"basins_retrieve: `{V}` is modified inside the "
                         f"loop over the definitions")
         own = inherited = None
+        unknown = []
+
+        def is_defs(it):
+            return (isinstance(it, ast.Name) and it.id in defs_names) \
+                or "basins_get_dicts" in txt(it)
+
+        def presence_of(t, v):
+            return isinstance(t, ast.Compare) and len(
+                t.ops) == 1 and const_str(t.left) == "key" and isinstance(
+                t.ops[0], ast.In) and is_name(t.comparators[0], v)
+
+        def parts(e):
+            if isinstance(e, ast.BinOp) and isinstance(e.op, ast.Add):
+                return parts(e.left) + parts(e.right)
+            if isinstance(e, ast.Call) and call_name(e) in (
+                    "list", "sorted", "tuple") and len(e.args) == 1:
+                return parts(e.args[0])
+            if isinstance(e, (ast.List, ast.Tuple)) and any(
+                    isinstance(x, ast.Starred) for x in e.elts):
+                out = []
+                for x in e.elts:
+                    out += parts(x.value) if isinstance(
+                        x, ast.Starred) else [x]
+                return out
+            return [e]
+
+        def classify(e, st):
+            """-> 'own' | 'inherited' | 'none' | 'self' | None (unknown)"""
+            if isinstance(e, (ast.List, ast.Tuple)) and not e.elts:
+                return "none"
+            if is_name(e, V):
+                return "self"
+            if is_self_attr(e, "_basins_ignored"):
+                return "inherited"
+            if isinstance(e, (ast.ListComp, ast.GeneratorExp,
+                              ast.SetComp)) and len(e.generators) == 1:
+                g = e.generators[0]
+                if isinstance(g.target, ast.Name) and is_key(
+                        e.elt, g.target.id, "key") and is_defs(
+                        g.iter) and all(presence_of(i, g.target.id)
+                                        for i in g.ifs):
+                    return "own"
+            return None
         for n in func.body:
             if n is sites.loop:
                 break
-            tgt_is_v = isinstance(n, ast.Assign) and len(
-                n.targets) == 1 and is_name(n.targets[0], V)
-            aug_is_v = isinstance(n, ast.AugAssign) and is_name(
-                n.target, V) and isinstance(n.op, ast.Add)
-            ext = isinstance(n, ast.Expr) and isinstance(
-                n.value, ast.Call) and last_attr(n.value) in (
-                "extend",) and is_name(n.value.func.value, V)
-            if not (tgt_is_v or aug_is_v or ext):
-                continue
-            if tgt_is_v:
+            contrib = None
+            if isinstance(n, ast.Assign) and len(
+                    n.targets) == 1 and is_name(n.targets[0], V):
                 own = inherited = None    # rebuilt from here
-            for x in ast.walk(n.value):
-                if isinstance(x, (ast.ListComp, ast.GeneratorExp,
-                                  ast.SetComp)) and len(x.generators) == 1:
-                    g = x.generators[0]
-                    if isinstance(g.target, ast.Name) and is_key(
-                            x.elt, g.target.id, "key") and (
-                            (isinstance(g.iter, ast.Name)
-                             and g.iter.id in defs_names)
-                            or "basins_get_dicts" in txt(g.iter)) and all(
-                            isinstance(i, ast.Compare) and const_str(
-                                i.left) == "key" and isinstance(
-                                i.ops[0], ast.In) and is_name(
-                                i.comparators[0], g.target.id)
-                            for i in g.ifs):
-                        own = n
-                if is_self_attr(x, "_basins_ignored"):
+                unknown = []
+                contrib = parts(n.value)
+            elif isinstance(n, ast.AugAssign) and is_name(
+                    n.target, V) and isinstance(n.op, ast.Add):
+                contrib = parts(n.value)
+            elif isinstance(n, ast.Expr) and isinstance(
+                    n.value, ast.Call) and isinstance(
+                    n.value.func, ast.Attribute) and is_name(
+                    n.value.func.value, V):
+                if n.value.func.attr == "extend" and len(n.value.args) == 1:
+                    contrib = parts(n.value.args[0])
+                elif n.value.func.attr == "append":
+                    unknown.append(n)
+                else:
+                    unknown.append(n)
+            elif isinstance(n, ast.For):
+                adds = [c for c in walk(n) if isinstance(c, ast.Call)
+                        and isinstance(c.func, ast.Attribute)
+                        and is_name(c.func.value, V)]
+                if adds:
+                    for c in adds:
+                        good = isinstance(n.target, ast.Name) and is_defs(
+                            n.iter) and c.func.attr == "append" and len(
+                            c.args) == 1 and is_key(
+                            c.args[0], n.target.id, "key") and all(
+                            pol and presence_of(t, n.target.id)
+                            for t, pol in enclosing_conditions(c, n)) \
+                            and not any(isinstance(x, (ast.Break,
+                                                       ast.Continue,
+                                                       ast.Return))
+                                        for x in walk(n))
+                        if good:
+                            own = n
+                        else:
+                            unknown.append(n)
+            elif any(isinstance(x, ast.Name) and x.id == V and isinstance(
+                    x.ctx, ast.Store) for x in walk(n)) or any(
+                    isinstance(c, ast.Call) and isinstance(
+                        c.func, ast.Attribute) and is_name(c.func.value, V)
+                    for c in walk(n)):
+                unknown.append(n)
+            for e in contrib or []:
+                k = classify(e, n)
+                if k == "own":
+                    own = n
+                elif k == "inherited":
                     inherited = n
+                elif k is None:
+                    unknown.append(n)
+        if unknown and (own is None or inherited is None):
+            raise AnalysisError(
+                f"basins_retrieve: cannot classify how `{V}` is built "
+                f"(`{short(unknown[0], 60)}`)")
         ctx.ob("R14.2", own is not None,
                f"`{V}` contains the key of every definition of this dataset"
                if own is not None else
@@ -684,9 +757,15 @@ def r142(ctx, repo, sites):
             return False
         for c in find_calls(n.ast, attr="ignore_basins"):
             if isinstance(c.func, ast.Attribute) and txt(
-                    c.func.value) in aliases and c.args and is_self_attr(
-                    c.args[0], "ignored_basins"):
-                return True
+                    c.func.value) in aliases and c.args:
+                arg = expand_locals(dsf, c.args[0])
+                if arg in ("self.ignored_basins", "(self.ignored_basins)"):
+                    return True
+                if isinstance(ast.parse(arg, mode="eval").body,
+                              (ast.Name, ast.Call)):
+                    raise AnalysisError(
+                        f"Basin.ds: cannot tell what `{short(c, 50)}` "
+                        f"installs")
         return False
 
     def mentions(a):
@@ -1000,9 +1079,20 @@ def r143(ctx, repo, sites):
             n.targets[0], nm)]
         free = [n for n in asg if isinstance(n.value, ast.Constant)
                 and n.value.value is True]
-        bad = [n for n in free if all(
-            pol or "run_identifier" not in txt(t)
-            for t, pol in enclosing_conditions(n, vb))]
+        # the waiver must be unreachable when the check is requested and
+        # everything else (availability, ...) holds
+        bad = []
+        for n in free:
+            conds = enclosing_conditions(n, vb)
+            env = {x: True for t, _ in conds for x in names_in(t)}
+            try:
+                runs = all(bool(Mini(env).ev(t)) == pol for t, pol in conds)
+            except Unknown as u:
+                raise AnalysisError(
+                    f"verify_basin: cannot decide when `{short(n, 40)}` "
+                    f"runs (`{u}`)")
+            if runs:
+                bad.append(n)
         ctx.ob("R14.3", not bad,
                "the verdict is waived only when run_identifier is off or the "
                "basin is unavailable" if not bad else
@@ -1505,6 +1595,12 @@ MUTANTS = [
     ("unmapped basins accept prefixes", FB,
      ("                        verifier = str.__eq__\n",
       "                        verifier = str.startswith\n"), "R14.3"),
+    ("identifier check only for unavailable basins", FB,
+     ("        if run_identifier and check_avail:\n",
+      "        if run_identifier and not check_avail:\n"), "R14.3"),
+    ("identifier check waived when requested", FB,
+     ("        if run_identifier and check_avail:\n",
+      "        if not run_identifier and check_avail:\n"), "R14.3"),
     ("verdict not returned", FB,
      ("        return check_rid and check_avail\n",
       "        return check_avail\n"), "R14.3"),
@@ -1591,7 +1687,60 @@ def _twin_entry_locals(src):
         '            b_type = bdict["type"]\n', 1)
 
 
+def _twin_waiver_first(src):
+    for old, rep in (
+            ("        if availability:\n"
+             "            check_avail = self.is_available()\n"
+             "        else:\n"
+             "            check_avail = True\n",
+             "        check_avail = self.is_available() if availability "
+             "else True\n"),
+            ("        if run_identifier and check_avail:\n",
+             "        if not (run_identifier and check_avail):\n"
+             "            check_rid = True\n"
+             "        else:\n"),
+            ("            check_rid = self._measurement_identifier_verified\n"
+             "        else:\n"
+             "            check_rid = True\n",
+             "            check_rid = self._measurement_identifier_verified\n")):
+        if src.count(old) != 1:
+            return src      # stale: reported by the self-test
+        src = src.replace(old, rep)
+    return src
+
+
+def _twin_key_loop(src):
+    """explicit loop + extend instead of comprehension + `+=`, renamed"""
+    src = src.replace(
+        '        bd_keys = [bd["key"] for bd in bdicts_srt if "key" in bd]\n'
+        '        bd_keys += self._basins_ignored\n',
+        '        bd_keys = []\n'
+        '        for bd in bdicts_srt:\n'
+        '            if "key" in bd:\n'
+        '                bd_keys.append(bd["key"])\n'
+        '        bd_keys.extend(self._basins_ignored)\n')
+    return src.replace("bd_keys", "seen_keys")
+
+
 TWINS = [
+    ("verify_basin: waiver first, conditional expression for availability",
+     FB, _twin_waiver_first),
+    ("Basin.ds with guard clause and a local for the ignore list", FB,
+     ("        if self._ds is None:\n"
+      "            if not self.is_available():\n"
+      "                raise BasinNotAvailableError(f\"Basin {self} is not available!\")\n"
+      "            self._ds = self.load_dataset(self.location, **self.kwargs)\n"
+      "            self._ds.ignore_basins(self.ignored_basins)\n"
+      "        return self._ds\n",
+      "        if self._ds is not None:\n"
+      "            return self._ds\n"
+      "        if not self.is_available():\n"
+      "            raise BasinNotAvailableError(f\"Basin {self} is not available!\")\n"
+      "        self._ds = self.load_dataset(self.location, **self.kwargs)\n"
+      "        seen_basin_keys = self.ignored_basins\n"
+      "        self._ds.ignore_basins(seen_basin_keys)\n"
+      "        return self._ds\n")),
+    ("ignore keys collected by a loop and extend()", CORE, _twin_key_loop),
     ("locals for the format and type of the definition", CORE,
      _twin_entry_locals),
     ("local rename of the definition variable", CORE,
